@@ -72,6 +72,17 @@ Theorem C20_every_column_holds_the_source :
   D' c k = migrated_col (nth (N.to_nat c) cols mcol0) (nth (N.to_nat c) srcs []) k.
 Proof. exact whole_call_uniform. Qed.
 
+(* the same in place: with overwrite the SOURCE directory ends with every column of the call holding the source's keys,
+   values and counts under the new options, and every column outside the call exactly as it was *)
+Theorem C20_every_column_holds_the_source_in_place :
+  forall n cols srcs S' D', all_distinct srcs ->
+  (forall i, (i < length cols)%nat -> wf_src (cfg_of_flags (m_sf (nth i cols mcol0))) (nth i srcs [])) ->
+  migrate_driver n cols (length cols) true srcs (src_db srcs) = MgOk S' D' ->
+  forall c k, (c < N.of_nat (length cols) ->
+               S' c k = migrated_col (nth (N.to_nat c) cols mcol0) (nth (N.to_nat c) srcs []) k) /\
+              (N.of_nat (length cols) <= c -> S' c k = src_db srcs c k).
+Proof. exact whole_call_uniform_in_place. Qed.
+
 (* [spec_db] read column by column *)
 Theorem C20_result_column_by_column : forall cols c0 srcs S base c,
   spec_db c0 cols srcs S base c =
@@ -116,6 +127,7 @@ Print Assumptions C20_content_preserved.
 Print Assumptions C20_whole_call_without_overwrite.
 Print Assumptions C20_whole_call_with_overwrite.
 Print Assumptions C20_every_column_holds_the_source.
+Print Assumptions C20_every_column_holds_the_source_in_place.
 Print Assumptions C20_result_column_by_column.
 Print Assumptions C20_batch_boundaries_are_invisible.
 Print Assumptions C20_refused_iff.
